@@ -920,6 +920,57 @@ def compositions(n):
 # C17: ladder coherence on the real code
 # --------------------------------------------------------------------------
 
+def caller_ladder_findings(seed, n=6, max_findings=2):
+    """C03 ("... using the betas at which those levels are being sampled"): the ladder is handed in as
+    a numpy array in every order, the caller keeps using (and changing) its array after the sampler was
+    built, two samplers are built from the same array: every sweep must still be decided with the betas
+    the levels sample at (replay of the recorded ratios from the levels' betas and log-likelihoods)."""
+    from epsie.samplers import ParallelTemperedSampler
+    from epsie.proposals import Normal
+    rng = random.Random(seed * 7 + 11)
+    out, nsweeps = [], 0
+
+    class M:
+        def __call__(self, x):
+            return -math.floor(x * x * 8) / 16.0, -math.floor(abs(x) * 4) / 8.0
+    for k in range(n):
+        nt = rng.choice([3, 4, 5])
+        betas = sorted({1.0} | set(rng.sample(plumbing.DYADIC_BETAS[1:], nt - 1)), reverse=True)
+        order = ['descending', 'ascending', 'shuffled'][k % 3]
+        given = list(betas) if order == 'descending' else (betas[::-1] if order == 'ascending' else rng.sample(betas, len(betas)))
+        arr = numpy.array(given, dtype=float)
+        cfg = {'given': list(given), 'order': order}
+        try:
+            smp = ParallelTemperedSampler(['x'], M(), 2, arr, swap_interval=1, proposals=[Normal(['x'], cov=[0.5])],
+                                          seed=rng.randrange(1 << 20))
+            other = ParallelTemperedSampler(['x'], M(), 1, arr, swap_interval=1, proposals=[Normal(['x'], cov=[0.5])],
+                                            seed=rng.randrange(1 << 20))
+            ntl = len(smp.chains[0].chains)
+            smp.start_position = {'x': numpy.array([[rng.uniform(-1, 1) for _ in smp.chains] for _ in range(ntl)])}
+            other.start_position = {'x': numpy.array([[rng.uniform(-1, 1)] for _ in range(ntl)])}
+            arr *= 0.5                      # the caller goes on using its own array
+            arr[0] = 0.875
+            for it in range(8):
+                for s_ in (smp, other):
+                    with SweepCapture() as cap:
+                        s_.run(1)
+                    for e in cap.sweeps:
+                        nsweeps += 1
+                        want = sorted(given, reverse=True)
+                        if e['level_betas'] != want:
+                            out.append(('levels-follow-the-callers-array', 'the levels sample at %s after the caller changed the '
+                                        'array it had passed (given %s)' % (e['level_betas'], want), {'detail': cfg}))
+                        mm = sweep_ar_mismatch(e)
+                        if mm:
+                            out.append(('swap-ratio-not-from-the-levels-betas', 'ladder passed as a numpy array (%s) that the caller '
+                                        'changed afterwards: %s' % (order, mm), {'detail': cfg}))
+                    if len(out) >= max_findings:
+                        return out[:max_findings], {'sweeps_replayed': nsweeps}
+        except Exception as e:      # noqa: BLE001
+            out.append(('caller-ladder-raises', 'a sampler built from a numpy ladder raised %r' % (e,), {'detail': cfg}))
+    return out[:max_findings], {'sweeps_replayed': nsweeps}
+
+
 def ladder_findings(seed, full=False, max_findings=4):
     from epsie.samplers import ParallelTemperedSampler
     from epsie.chain.ptchain import DynamicalAnnealer
